@@ -10,7 +10,19 @@ HB   - on top of SC executions: C++20 happens-before (sequenced-before, synchron
 import z3, time
 from irsym import Event, is_c, bv, z3_vars
 
-BIG = 1000000
+BIG = 1000000000
+CW = 16      # clock width (bit-vector encoding of the integer clocks: pure QF_BV is decided by bit-blasting, much faster than LIA here)
+import os
+USE_BV = os.environ.get('VF_MM_BV', '0') == '1'
+if USE_BV:
+    LT = z3.ULT; LE = z3.ULE; GT = z3.UGT; GE = z3.UGE
+    def NUM(name, w): return z3.BitVec(name, w)
+else:
+    LT = lambda a, b: a < b
+    LE = lambda a, b: a <= b
+    GT = lambda a, b: a > b
+    GE = lambda a, b: a >= b
+    def NUM(name, w): return z3.Int(name)
 REL = ('release', 'acq_rel', 'seq_cst')
 ACQ = ('acquire', 'acq_rel', 'seq_cst')
 
@@ -40,13 +52,12 @@ class Model:
     def build(s):
         sc = s.sc
         B = s.base
-        s.barrier = z3.Int('barrier')
+        s.barrier = NUM('barrier', CW)
         check_tid = len(s.threads) if s.has_check else None
         allev = []
         for ti, (entry, runs, evc) in enumerate(s.threads):
             tid = ti + 1
-            s.len[tid] = z3.Int('len_%d' % tid)
-            B.append(s.len[tid] >= 0)
+            s.len[tid] = NUM('len_%d' % tid, 32)
             evs = sorted(evc.values(), key=lambda e: e.id)
             for e in evs:
                 e.uid = '%d_%d' % (tid, e.id)
@@ -54,24 +65,24 @@ class Model:
         s.events = allev
         s.stats['events'] = len(allev)
         for e in allev:
-            s.clk[e.uid] = z3.Int('clk_' + e.uid)
-            B.append(s.clk[e.uid] >= 1)
+            s.clk[e.uid] = NUM('clk_' + e.uid, CW)
+            B.append(GE(s.clk[e.uid], 1))
         # completion of threads
         s.complete = {}
         for ti, (entry, runs, evc) in enumerate(s.threads):
             tid = ti + 1
             done = [s.guard_expr(r.constraints) for r in runs if r.end == 'done']
-            s.complete[tid] = z3.And(s.len[tid] >= BIG, z3.Or(*done) if done else z3.BoolVal(False))
+            s.complete[tid] = z3.And(GE(s.len[tid], BIG), z3.Or(*done) if done else z3.BoolVal(False))
         s.all_complete = z3.And(*[s.complete[t] for t in range(1, s.nthreads + 1)]) if s.nthreads else z3.BoolVal(True)
         # enabledness
         for e in allev:
-            g = z3.And(s.guard_expr(e.guard), e.idx < s.len[e.tid])
+            g = z3.And(s.guard_expr(e.guard), LT(e.idx, s.len[e.tid]))
             if check_tid is not None and e.tid == check_tid:
                 g = z3.And(g, s.all_complete)
             s.en[e.uid] = g
             if check_tid is not None:
-                if e.tid == check_tid: B.append(s.clk[e.uid] > s.barrier)
-                else: B.append(s.clk[e.uid] < s.barrier)
+                if e.tid == check_tid: B.append(GT(s.clk[e.uid], s.barrier))
+                else: B.append(LT(s.clk[e.uid], s.barrier))
         # program order
         seen = set()
         for ti, (entry, runs, evc) in enumerate(s.threads):
@@ -80,7 +91,21 @@ class Model:
                     k = (a.uid, b.uid)
                     if k in seen: continue
                     seen.add(k)
-                    B.append(s.clk[a.uid] < s.clk[b.uid])
+                    B.append(LT(s.clk[a.uid], s.clk[b.uid]))
+        # merge points: reach definitions and per-level barriers
+        for ti, (entry, runs, evc) in enumerate(s.threads):
+            tid = ti + 1
+            nodes = {}
+            for r in runs:
+                for n in (r.join_table or {}).values(): nodes[n.id] = n
+            for n in nodes.values():
+                B.append(n.reach == z3.Or(*[s.guard_expr(c) for (_, c) in n.preds.values()]))
+            maxk = max([e.segk for e in evc.values()] + [0])
+            bars = [NUM('segbar_%d_%d' % (tid, k), CW) for k in range(maxk + 2)]
+            for k in range(maxk + 1):
+                B.append(LT(bars[k], bars[k + 1]))
+            for e in evc.values():
+                B.append(LT(bars[e.segk], s.clk[e.uid])); B.append(LT(s.clk[e.uid], bars[e.segk + 1]))
         # locations
         byaddr = {}
         for e in allev:
@@ -110,19 +135,19 @@ class Model:
             for r in evs:
                 if r.kind not in ('R', 'RMW', 'WAIT'): continue
                 cands, own = s.rf_candidates(r, ws)
-                rfv = z3.Int('rf_' + r.uid)
+                rfv = NUM('rf_' + r.uid, 12)
                 s.rf[r.uid] = (rfv, cands)
                 alts = []
                 ck = s.clk[r.uid]
                 if own is None:
-                    none_before = z3.And(*[z3.Not(z3.And(s.en_w(w2), s.clk[w2.uid] < ck)) for w2 in cands]) if cands else z3.BoolVal(True)
+                    none_before = z3.And(*[z3.Not(z3.And(s.en_w(w2), LT(s.clk[w2.uid], ck))) for w2 in cands]) if cands else z3.BoolVal(True)
                     alts.append(z3.And(rfv == 0, r.rval == initv, none_before))
                 for i, w in enumerate(cands):
                     s.stats['rf_edges'] += 1
                     cw = s.clk[w.uid]
-                    between = [z3.Not(z3.And(s.en_w(w2), cw < s.clk[w2.uid], s.clk[w2.uid] < ck)) for w2 in cands
+                    between = [z3.Not(z3.And(s.en_w(w2), LT(cw, s.clk[w2.uid]), LT(s.clk[w2.uid], ck))) for w2 in cands
                                if w2 is not w and not s.exclusive(w, w2)]
-                    alts.append(z3.And(rfv == i + 1, s.en_w(w), cw < ck, r.rval == s.wval(w), *between))
+                    alts.append(z3.And(rfv == i + 1, s.en_w(w), LT(cw, ck), r.rval == s.wval(w), *between))
                 B.append(z3.Implies(s.en[r.uid], z3.Or(*alts)))
                 if r.kind == 'WAIT':
                     B.append(z3.Implies(s.en[r.uid], r.rval != bv(r.info, r.width * 8)))
@@ -131,15 +156,19 @@ class Model:
 
     @staticmethod
     def ancestor(a, b):
-        """a is before b on a common path of the same thread"""
-        ka, kb = a.key[1], b.key[1]
+        """a may be before b on a common path of the same thread (exact within a segment, conservative across merge points)"""
+        if a.segk != b.segk: return a.segk < b.segk
+        if a.seg != b.seg: return False
+        ka, kb = a.lkey, b.lkey
         return a.idx < b.idx and len(ka) <= len(kb) and kb[:len(ka)] == ka
 
     @staticmethod
     def exclusive(a, b):
-        """same thread, different branches: never enabled together"""
+        """same thread, different branches of one segment (or different merge nodes of one level): never enabled together"""
         if a.tid != b.tid: return False
-        ka, kb = a.key[1], b.key[1]
+        if a.segk != b.segk: return False
+        if a.seg != b.seg: return True
+        ka, kb = a.lkey, b.lkey
         n = min(len(ka), len(kb))
         return ka[:n] != kb[:n]
 
@@ -152,7 +181,8 @@ class Model:
                 if not s.ancestor(w, r): continue
                 if w.kind == 'RMW' and w.succ is not True:
                     out.append(w); continue          # conditional own write: keep, cannot shadow older ones
-                if own is None or w.idx > own.idx: own = w
+                if w.segk == r.segk and (own is None or w.idx > own.idx): own = w
+                elif w.segk != r.segk: out.append(w)
             else:
                 out.append(w)
         if own is not None:
@@ -205,7 +235,7 @@ class Model:
                     key = (tid, msg, pos, cond if isinstance(cond, (str, bool)) else cond.sexpr(), tuple(x.sexpr() for x in g))
                     if key in seen: continue
                     seen.add(key)
-                    en = z3.And(s.guard_expr(g), s.len[tid] >= pos)
+                    en = z3.And(s.guard_expr(g), GE(s.len[tid], pos))
                     if tid == check_tid: en = z3.And(en, s.all_complete)
                     out.append((tid, en, cond, msg))
         return out
@@ -217,7 +247,7 @@ class Model:
             for e in s.events:
                 if e.kind in ('R', 'W', 'RMW', 'WAIT') and e.obj == f.obj and e is not f:
                     if e.tid == f.tid and e.idx < f.idx: continue
-                    out.append((f, e, z3.And(s.en[f.uid], s.en[e.uid], s.clk[f.uid] < s.clk[e.uid])))
+                    out.append((f, e, z3.And(s.en[f.uid], s.en[e.uid], LT(s.clk[f.uid], s.clk[e.uid]))))
             for f2 in frees:
                 if f2 is not f and f2.obj == f.obj and f2.uid < f.uid and 'delete' in f.site and 'delete' in f2.site:
                     out.append((f, f2, z3.And(s.en[f.uid], s.en[f2.uid])))
@@ -229,7 +259,7 @@ class Model:
         vv = bv(v, width * 8)
         alts = [z3.And(init == vv, *[z3.Not(s.en_w(w)) for w in ws])]
         for w in ws:
-            later = [z3.Not(z3.And(s.en_w(w2), s.clk[w2.uid] > s.clk[w.uid])) for w2 in ws if w2 is not w]
+            later = [z3.Not(z3.And(s.en_w(w2), GT(s.clk[w2.uid], s.clk[w.uid]))) for w2 in ws if w2 is not w]
             alts.append(z3.And(s.en_w(w), s.wval(w) == vv, *later))
         return z3.Or(*alts)
 
